@@ -45,12 +45,36 @@ def z3_unescape(s):
     return ''.join(out)
 
 
-def witness(ctx, m):
+def witness(ctx, m, extra=()):
     w = {}
     if m is not None:
+        m = ascii_model(ctx, m, extra)
         for (name, kind, term) in ctx.nondets:
             w[name] = model_value(m, kind, term)
+    w.update(ctx.choice_w)
     return w
+
+
+def ascii_model(ctx, m, extra=()):
+    """Prefer a model whose recorded strings are printable ASCII (replayable as Go/XML text)."""
+    strs = [t for (n, k, t) in ctx.nondets if k == 'string']
+    if not strs or ctx.opts.get('no_ascii_model'):
+        return m
+    printable = z3.Star(z3.Union(z3.Range('a', 'z'), z3.Range('A', 'Z'), z3.Range('0', '9'), z3.Re(':'), z3.Re('/'), z3.Re('.'), z3.Re('-'), z3.Re('_')))
+    cons = [z3.InRe(t, printable) for t in strs]
+    ctx.solver.push()
+    try:
+        for c in extra:
+            ctx.solver.add(c)
+        ctx.solver.add(*cons)
+        ctx.solver.set('timeout', 10000)
+        r = ctx.solver.check()
+        if r == z3.sat:
+            return ctx.solver.model()
+    finally:
+        ctx.solver.pop()
+        ctx.solver.set('timeout', int(ctx.opts.get('timeout_ms', 60000)))
+    return m
 
 
 # ---- harness intrinsics (installed as stubs by suffix match)
@@ -88,7 +112,7 @@ def i_assert(I, args, ins):
         ob['verdict'] = 'discharged'
     elif r == 'sat':
         ob['verdict'] = 'violated'
-        ob['witness'] = witness(ctx, m)
+        ob['witness'] = witness(ctx, m, (z3.Not(c),))
         ob['choices'] = list(ctx.trace_choices)
         ob['decisions'] = list(ctx.decisions)
         ob['events'] = [repr(e)[:300] for e in ctx.events[-12:]]
@@ -182,9 +206,28 @@ def i_nondet_duration(I, args, ins):
 
 
 def i_choose(I, args, ins):
-    """verifChoose(n): structural choice (not a solver variable), recorded in the witness trace."""
-    n = args[0]
-    return I.ctx.choose(n, 'verifChoose@' + I.ctx.cur_pos)
+    """verifChoose(tag, n): structural choice (forks the path), recorded in the witness."""
+    ctx = I.ctx
+    name = ctx.uname('choose:' + _label(args[0]))
+    d = ctx.choose(args[1], name)
+    ctx.choice_w[name] = d
+    return d
+
+
+def i_havoc(I, args, ins):
+    ctx = I.ctx
+    tag = _label(args[0])
+    p = ctx.force(args[1])
+    if not isinstance(p, Iface):
+        raise Inconclusive('verifHavoc argument')
+    t = I.prog.elem(p.dyn)
+    ctx.store_(p.val, ctx.fresh(t, tag, {'record': True}))
+    return None
+
+
+def i_note(I, args, ins):
+    I.ctx.event('note', _label(args[0]), args[1])
+    return None
 
 
 INTRINSICS = {
@@ -192,7 +235,7 @@ INTRINSICS = {
     'verifNondetInt': i_nondet_int, 'verifNondetInt64': i_nondet_int64, 'verifNondetBool': i_nondet_bool,
     'verifNondetByte': i_nondet_byte, 'verifNondetString': i_nondet_string, 'verifNondetBytes': i_nondet_bytes,
     'verifNondetTime': i_nondet_time, 'verifNondetTimeMs': i_nondet_time_ms,
-    'verifNondetDuration': i_nondet_duration, 'verifChoose': i_choose,
+    'verifNondetDuration': i_nondet_duration, 'verifChoose': i_choose, 'verifHavoc': i_havoc, 'verifNote': i_note,
 }
 
 
@@ -231,7 +274,7 @@ def run_inits(prog, opts):
         try:
             I.exec_function(fj, [], ())
         except (GoPanic, Inconclusive, Unwind, PathEnd) as e:
-            errs.append('%s: %s %s @%s in %s' % (name, type(e).__name__, e, ctx.cur_pos, ctx.callstack[-3:]))
+            errs.append('%s: %s %s @%s in %s' % (name, type(e).__name__, e, ctx.cur_pos, getattr(e, 'gostack', [])[-4:]))
             ctx.callstack.clear()
             ctx.depth = 0
     return ctx, errs
@@ -280,8 +323,16 @@ def run_path(harness, prefix, opts):
     except Exception as e:
         status = 'inconclusive'
         detail = 'engine error: %s\n%s' % (e, traceback.format_exc()[-1500:])
+    reach_w = None
+    if opts.get('want_reach') and ctx.reached and status in ('ok', 'panic') and not any(o['verdict'] != 'discharged' for o in ctx.obligations):
+        try:
+            r, m = ctx.check_sat()
+            if r == 'sat':
+                reach_w = witness(ctx, m)
+        except Exception:
+            reach_w = None
     return {
-        'status': status, 'detail': detail, 'decisions': ctx.decisions, 'alts': ctx.alts,
+        'status': status, 'detail': detail, 'decisions': ctx.decisions, 'alts': ctx.alts, 'reach_w': reach_w,
         'obligations': ctx.obligations, 'reached': ctx.reached,
         'instrs': ctx.stats.instrs, 'queries': ctx.stats.queries, 'solver_s': ctx.stats.solver_s,
         'unknown': ctx.stats.unknown, 'stubs_hit': ctx.stubs_hit, 'opaque_calls': ctx.opaque_calls,
@@ -306,7 +357,7 @@ def _worker(task):
     except Exception as e:
         return {'status': 'inconclusive', 'detail': 'worker: %s %s' % (e, traceback.format_exc()[-800:]), 'decisions': list(prefix),
                 'alts': [], 'obligations': [], 'reached': [], 'instrs': 0, 'queries': 0, 'solver_s': 0, 'unknown': 0,
-                'stubs_hit': {}, 'opaque_calls': {}, 'funcs_run': {}, 'assumes': [], 'wall_s': 0}
+                'stubs_hit': {}, 'opaque_calls': {}, 'funcs_run': {}, 'assumes': [], 'wall_s': 0, 'reach_w': None}
 
 
 def explore(harness, opts, pool=None, max_paths=200000, deadline=None, progress=None):
@@ -315,8 +366,15 @@ def explore(harness, opts, pool=None, max_paths=200000, deadline=None, progress=
         'harness': harness, 'paths': 0, 'status_counts': {}, 'obligations': 0, 'discharged': 0, 'trivial': 0,
         'violations': [], 'undecided': [], 'reached': {}, 'instrs': 0, 'queries': 0, 'solver_s': 0.0,
         'unknown': 0, 'stubs_hit': {}, 'opaque_calls': {}, 'funcs_run': {}, 'inconclusive': [], 'unwind': [],
-        'labels': {}, 'panics': {}, 'complete': True, 'assumes': set(),
+        'labels': {}, 'panics': {}, 'complete': True, 'assumes': set(), 'reach_witness': {},
     }
+    nsub = [0]
+
+    def task_opts():
+        nsub[0] += 1
+        if nsub[0] <= opts.get('reach_sample', 60) and opts.get('validate_reach', True):
+            return dict(opts, want_reach=True)
+        return opts
     pending = [[]]
     inflight = []
     t0 = time.time()
@@ -343,6 +401,8 @@ def explore(harness, opts, pool=None, max_paths=200000, deadline=None, progress=
                 agg['undecided'].append({'label': ob['label'], 'pos': ob.get('pos')})
         for l in r['reached']:
             agg['reached'][l] = agg['reached'].get(l, 0) + 1
+            if r.get('reach_w') is not None and r['status'] == 'ok' and l not in agg['reach_witness']:
+                agg['reach_witness'][l] = r['reach_w']
         for k in ('instrs', 'queries', 'solver_s', 'unknown'):
             agg[k] += r[k]
         for k in ('stubs_hit', 'opaque_calls', 'funcs_run'):
@@ -368,7 +428,7 @@ def explore(harness, opts, pool=None, max_paths=200000, deadline=None, progress=
                 agg['truncated'] = len(pending)
                 break
             p = pending.pop()
-            absorb(_worker((harness, p, opts)))
+            absorb(_worker((harness, p, task_opts())))
             if progress and agg['paths'] % 50 == 0:
                 progress(agg, len(pending))
     else:
@@ -380,7 +440,7 @@ def explore(harness, opts, pool=None, max_paths=200000, deadline=None, progress=
                     pending.clear()
             while pending and len(inflight) < pool._processes * 3:
                 p = pending.pop()
-                inflight.append(pool.apply_async(_worker, ((harness, p, opts),)))
+                inflight.append(pool.apply_async(_worker, ((harness, p, task_opts()),)))
             still = []
             got = False
             for a in inflight:
